@@ -1295,6 +1295,10 @@ func (ctx Ctx) derefExpr(e ast.Expr) coq.Expr {
 			coq.StructDesc(info.name),
 			ctx.expr(e))
 	}
+	if _, isPtr := ctx.typeOf(e).Underlying().(*types.Pointer); !isPtr {
+		// e.g. a type parameter whose core type is a pointer
+		ctx.unsupported(e, "dereference of non-pointer type %v", ctx.typeOf(e))
+	}
 	return coq.DerefExpr{
 		X:  ctx.expr(e),
 		Ty: ctx.coqTypeOfType(e, ptrElem(ctx.typeOf(e).Underlying())),
